@@ -24,6 +24,13 @@ def _one(args: Tuple[str, str, str, str, str, Optional[str]]) -> Dict[str, Any]:
     prop, vid, rel, old, new, expect = args
     base = _BASE
     assert base is not None
+    if rel == "<whole-repo-twin>":
+        from .twins import run_twin
+
+        t0 = time.time()
+        r = run_twin(prop, base, old)
+        r["s"] = round(time.time() - t0, 2)
+        return r
     t0 = time.time()
     try:
         src = base.read_text(rel)
@@ -65,6 +72,7 @@ def run_for(prop: str, base: Model) -> Dict[str, Any]:
     from .variants import VARIANTS
 
     vs = [v for v in VARIANTS if v[0] == prop]
+    vs += [(prop, "twin-reformat", "<whole-repo-twin>", "reformat", "", None), (prop, "twin-rename-locals", "<whole-repo-twin>", "rename-locals", "", None)]
     _BASE = base
     t0 = time.time()
     results: List[Dict[str, Any]] = []
